@@ -12,6 +12,10 @@ Sub-checks
                 ploidy * sum_b max_{parents,phases}; bound / attainment by doubled haploids recombining only at block
                 boundaries (evaluated marker by marker); invariance to the ``mem`` chunk size
     opv         OPV / GenotypeBuilder latent functions; OPV of a set bounds the OHV of every cross inside it
+    history     ONE problem object (OPV / GenotypeBuilder / the four OHV classes) driven through a drawn history of
+                "evaluate" (latentfn or evalfn), "assign new block values through the public setter" (haplomat / ohvmat,
+                new genotypes and effects, possibly a new number of blocks), "assign nbestfndr"; after every step the value
+                reported must be the definition applied to the block values the object holds NOW
 
 Oracles are Python loops with math.fsum over the raw 0/1 calls and effects, on a partition computed by the harness from
 the marker positions (numpy.linspace edges, closed bins, a marker on an inner boundary belongs to the later bin).
@@ -51,6 +55,14 @@ ASSUMPTIONS = [
     "a RuntimeError/ValueError 'more blocks than markers on a chromosome' for a total between the chromosome count and "
     "the marker count is accepted as a clean rejection (the code raises it deliberately); it is counted by a label",
     "genotypes are 0/1 calls, effects finite float64",
+    "history: a problem object's public setters (haplomat / ohvmat / nbestfndr) are part of its interface; after an "
+    "assignment the optimal values it reports are those of the block values it holds now (its own public attribute), "
+    "whatever was evaluated before. The assigned block values are computed by the harness from new 0/1 genotypes and "
+    "effects on the same markers (an equal-width bin without a marker contributes the empty sum 0.0); ploidy, number of "
+    "taxa and traits stay fixed over the history, the number of blocks may change. In-place edits of the array returned "
+    "by the getter are NOT exercised (nothing promises that they are observed). OHV objects are evaluated on a single "
+    "cross (one-hot vector for the Real/Integer/Binary classes) so that any aggregate over the selection equals that "
+    "cross's OHV. obj_wt=1.0 is passed explicitly; the identity objective transformation is the documented default.",
 ]
 
 EPS = 2.0 ** -52
@@ -296,6 +308,39 @@ def opv_case(draw):
     return {"layout": draw(layout_strategy(max_chr=3, max_mk=8)), "nb": spec, "g": draw(geno_spec()),
             "sel": [draw(st.integers(0, 10 ** 6)) for _ in range(draw(st.integers(1, 6)))],
             "nbest_raw": draw(st.integers(0, 10 ** 6))}
+
+
+HIST_G = st.fixed_dictionaries({
+    "gkind": st.sampled_from(["random", "random", "random", "inbred", "all0", "all1"]),
+    "gseed": st.integers(0, 2 ** 32 - 1),
+    "ukind": st.sampled_from(["ints", "ints", "floats", "floats", "mixed_scale", "zeros", "neg"]),
+    "useed": st.integers(0, 2 ** 32 - 1)})
+
+
+@st.composite
+def history_op(draw):
+    kind = draw(st.sampled_from(["eval", "eval", "eval", "set", "set", "nbest"]))
+    if kind == "eval":
+        return ["eval", [draw(st.integers(0, 10 ** 6)) for _ in range(draw(st.integers(1, 5)))],
+                draw(st.sampled_from(["latentfn", "latentfn", "evalfn"]))]
+    if kind == "set":
+        # new genotypes and effects on the same markers; optionally re-partitioned into another number of blocks
+        return ["set", draw(HIST_G), draw(st.one_of(st.none(), st.none(), st.integers(0, 10 ** 6)))]
+    return ["nbest", draw(st.integers(0, 10 ** 6))]
+
+
+@st.composite
+def history_case(draw):
+    spec = draw(st.fixed_dictionaries({
+        "mode": st.sampled_from(["nchr", "nmk", "mid", "mid", "low", "low", "low"]), "raw": st.integers(0, 10 ** 6)}))
+    return {"layout": draw(layout_strategy(max_chr=3, max_mk=8)), "nb": spec, "g": draw(geno_spec()),
+            "obj": draw(st.sampled_from(["opv", "opv", "gb", "gb", "ohv"])),
+            "build": draw(st.sampled_from(["from_pgmat_gpmod", "from_pgmat_gpmod", "constructor"])),
+            "ohvcls": draw(st.sampled_from(["Subset", "Subset", "Real", "Integer", "Binary"])),
+            "nparent": draw(st.sampled_from([1, 2, 2, 3])),
+            "unique": draw(st.booleans()),
+            "nbest_raw": draw(st.integers(0, 10 ** 6)),
+            "ops": draw(st.lists(history_op(), min_size=3, max_size=8))}
 
 
 # ----------------------------------------------------------------------------------------------------------------------
@@ -801,6 +846,213 @@ def check_opv(case, ctx):
             ctx.check(abs(gotg - got) <= tol * k_sel, "gb.equals_opv_when_one_founder")
 
 
+# ----------------------------------------------------------------------------------------------------------------------
+# sub-check: history (one problem object: use, modify through the public setters, use again)
+# ----------------------------------------------------------------------------------------------------------------------
+def block_state(chroms, total, g, gspec, p):
+    """harness-side state after (re)assignment: genotypes, effects, partition, block values -- from the case only.
+
+    A bin that receives no marker gets the value of the empty sum, 0.0, for every chromosome copy (the block values are
+    produced by the harness here and handed to the object through its public constructor / setter)."""
+    spec = dict(g)
+    spec.update(gspec)
+    geno, u = build_geno(spec, p), build_u(spec, p)
+    nblk = ref_apportion(total, chroms)
+    labels, empty, _ = ref_labels(chroms, nblk)
+    bv = ref_blockvalues(geno, u, labels, total)
+    return {"geno": geno, "u": u, "total": total, "labels": labels, "bv": bv, "empty": bool(empty),
+            "hm": numpy.array(bv, dtype="float64"), "scale": abs_scale(u), "tot": hap_totals(geno, u)}
+
+
+def check_history(case, ctx):
+    chroms = positions_of(case["layout"])
+    nchr = len(chroms)
+    lens = [len(ch) for ch in chroms]
+    p = sum(lens)
+    g = case["g"]
+    m, n, t = g["ploidy"], g["ntaxa"], g["ntrait"]
+    kind = case["obj"]
+    ctx.label("object=" + kind)
+
+    def admissible(total):
+        nb = ref_apportion(total, chroms)
+        return all(nb[c] <= lens[c] for c in range(nchr))
+
+    total = total_blocks(case["nb"], nchr, p)
+    if not admissible(total):
+        total = nchr                                   # one block per chromosome is always admissible
+    state = block_state(chroms, total, g, {}, p)
+    # cross map of the OHV objects (fixed for the life of the object)
+    d = int(case["nparent"])
+    unique = bool(case["unique"])
+    if unique and d > n:
+        d = n
+    xm = ref_xmap(n, d, unique)
+    nx = len(xm)
+
+    def ref_ohv(stt):
+        return [[m * math.fsum(max(stt["bv"][ph][i][b][k] for i in par for ph in range(m)) for b in range(stt["total"]))
+                 for k in range(t)] for par in xm]
+
+    # ---- construction --------------------------------------------------------------------------------------------
+    # from_pgmat_gpmod only where the library's own partition is fully specified (every equal-width bin holds a marker);
+    # otherwise the object is built through its constructor from the harness' block values
+    route = case["build"] if not state["empty"] else "constructor"
+    ctx.label("built_by=" + route)
+    nbest = 1 + int(case["nbest_raw"]) % n
+    with poisoned():
+        if kind in ("opv", "gb"):
+            k_dec = n
+            common = dict(ndecn=k_dec, decn_space=numpy.arange(n), decn_space_lower=numpy.repeat(0, k_dec),
+                          decn_space_upper=numpy.repeat(n - 1, k_dec), nobj=t, obj_wt=1.0)
+            if kind == "gb":
+                common["nbestfndr"] = nbest
+            cls = OPVP if kind == "opv" else GBP
+            if route == "from_pgmat_gpmod":
+                prob = cls.from_pgmat_gpmod(nhaploblk=total, pgmat=build_pgmat(state["geno"], chroms),
+                                            gpmod=build_gpmod(state["u"]), **common)
+                assigned = None
+            else:
+                assigned = state["hm"].copy()
+                prob = cls(haplomat=assigned, **common)
+        else:
+            ocls = case["ohvcls"] if route == "from_pgmat_gpmod" else "Subset"
+            ctx.label("ohvcls=" + ocls)
+            if ocls == "Subset":
+                kw = dict(ndecn=1, decn_space=numpy.arange(nx), decn_space_lower=numpy.array([0]),
+                          decn_space_upper=numpy.array([nx - 1]))
+            else:
+                lo, up = numpy.zeros(nx), numpy.ones(nx)
+                if ocls != "Real":
+                    lo, up = lo.astype("int64"), up.astype("int64")
+                kw = dict(ndecn=nx, decn_space=numpy.stack([lo, up]), decn_space_lower=lo, decn_space_upper=up)
+            cls = getattr(OHVM, "OptimalHaploidValue%sSelectionProblem" % ocls)
+            if route == "from_pgmat_gpmod":
+                prob = cls.from_pgmat_gpmod(nparent=d, nhaploblk=total, unique_parents=unique,
+                                            pgmat=build_pgmat(state["geno"], chroms), gpmod=build_gpmod(state["u"]),
+                                            nobj=t, obj_wt=1.0, **kw)
+                assigned = None
+            else:
+                assigned = numpy.array(ref_ohv(state), dtype="float64").reshape(nx, t)
+                prob = cls(ohvmat=assigned, decn_space_xmap=numpy.array(xm, dtype="int64").reshape(nx, d), nobj=t,
+                           obj_wt=1.0, **kw)
+    snap = None if assigned is None else assigned.copy()
+
+    # ---- history -------------------------------------------------------------------------------------------------
+    evaluated = False          # the object has been used at least once
+    modified_after_use = False
+    nsets = 0
+    for op in case["ops"]:
+        name = op[0]
+        if name == "nbest" and kind != "gb":
+            name = "eval"
+            op = ["eval", [op[1]], "latentfn"]
+        if name == "set":
+            raw = op[2]
+            newtotal = state["total"]
+            if raw is not None:
+                cand = nchr + int(raw) % (p - nchr + 1)
+                if admissible(cand):
+                    newtotal = cand
+            ctx.label("set_changes_number_of_blocks", newtotal != state["total"])
+            state = block_state(chroms, newtotal, g, op[1], p)
+            with poisoned():
+                if kind == "ohv":
+                    assigned = numpy.array(ref_ohv(state), dtype="float64").reshape(nx, t)
+                    prob.ohvmat = assigned
+                else:
+                    assigned = state["hm"].copy()
+                    prob.haplomat = assigned
+            snap = assigned.copy()
+            nsets += 1
+            if evaluated:
+                modified_after_use = True
+            got_attr = prob.ohvmat if kind == "ohv" else prob.haplomat
+            ctx.check(isinstance(got_attr, numpy.ndarray) and got_attr.shape == snap.shape and bool((got_attr == snap).all()),
+                      "history.getter_returns_assigned_values",
+                      lambda: "assigned %s, attribute reads %s" % (snap.tolist(), numpy.asarray(got_attr).tolist()))
+            continue
+        if name == "nbest":
+            nbest = 1 + int(op[1]) % n
+            with poisoned():
+                prob.nbestfndr = nbest
+            if evaluated:
+                modified_after_use = True
+            ctx.label("nbestfndr_assigned_after_use", evaluated)
+            continue
+        # ---- evaluate ----
+        via = op[2]
+        ctx.label("via=" + via)
+        bv, scale, tot, total = state["bv"], state["scale"], state["tot"], state["total"]
+        after = "after_setter" if nsets else "as_built"
+        if kind == "ohv":
+            ci = int(op[1][0]) % nx
+            if prob.__class__.__name__.startswith("OptimalHaploidValueSubset"):
+                xa = numpy.array([ci], dtype="int64")
+            else:
+                xa = numpy.zeros(nx, dtype="float64" if "Real" in prob.__class__.__name__ else "int64")
+                xa[ci] = 1
+        else:
+            x = []
+            for r in op[1]:
+                if int(r) % n not in x:
+                    x.append(int(r) % n)
+            if kind == "gb":
+                for i in range(n):                  # the builder needs at least nbestfndr selected members
+                    if len(x) >= nbest:
+                        break
+                    if i not in x:
+                        x.append(i)
+            xa = numpy.array(x, dtype="int64")
+        with poisoned():
+            if via == "evalfn":
+                res = prob.evalfn(xa)
+                lat = res[0]
+            else:
+                lat = prob.latentfn(xa)
+        ctx.label("evaluated_again_after_setter_after_evaluation", modified_after_use)
+        ctx.nontrivial(modified_after_use)
+        evaluated = True
+        ok = ctx.check(numpy.shape(lat) == (t,), "history.latent_shape", lambda: "%s" % (numpy.shape(lat),))
+        if not ok:
+            return
+        for k in range(t):
+            tol = 8 * (p + total) * EPS * scale[k] * m
+            got = -float(lat[k])
+            if kind == "ohv":
+                ref = ref_ohv(state)[ci][k]
+                ctx.check(abs(got - ref) <= tol, "history.ohv_of_single_cross",
+                          lambda: "%s, cross %s trait %d: reported %r, ploidy * sum over blocks of the best block value "
+                                  "of the CURRENT data %r" % (after, xm[ci], k, got, ref))
+                continue
+            ref = m * math.fsum(max(bv[ph][i][b][k] for i in x for ph in range(m)) for b in range(total))
+            if kind == "opv":
+                ctx.check(abs(got - ref) <= tol, "history.opv_value",
+                          lambda: "%s, selection %s trait %d: reported %r, ploidy * sum over blocks of the best block "
+                                  "value among the selected in the block values the object holds now %r" % (after, x, k, got, ref))
+                for i in x:
+                    for ph in range(m):
+                        ctx.check(got >= m * tot[ph][i][k] - tol, "history.opv_at_least_doubled_member_haplotype",
+                                  lambda: "%s: opv %r < %d * haplotype value %r of the current genotypes" % (
+                                      after, got, m, tot[ph][i][k]))
+            else:
+                terms = []
+                for b in range(total):
+                    best = sorted(max(bv[ph][i][b][k] for ph in range(m)) for i in x)
+                    terms.extend(best[len(best) - nbest:])
+                refg = (m / nbest) * math.fsum(terms)
+                ctx.check(abs(got - refg) <= tol * len(x), "history.gb_value",
+                          lambda: "%s, selection %s nbestfndr %d trait %d: reported %r expected %r" % (
+                              after, x, nbest, k, got, refg))
+                ctx.check(got <= ref + tol * len(x), "history.gb_not_above_opv")
+        # evaluation must not alter the block values the object holds
+        if snap is not None:
+            cur = prob.ohvmat if kind == "ohv" else prob.haplomat
+            ctx.check(cur.shape == snap.shape and bool((cur == snap).all()) and bool((assigned == snap).all()),
+                      "history.evaluation_altered_block_values")
+    ctx.label("history_has_setter", nsets > 0)
+
+
 SUBCHECKS = [
     SubCheck("apportion", check_apportion, apportion_case(), quick=600, thorough=4000, shards_quick=2,
              rule="generated layouts (1-5 chromosomes x 1-10 markers; even / clustered / tied / zero-length / single-marker "
@@ -824,4 +1076,12 @@ SUBCHECKS = [
              rule="layout x total x genotypes x effects x selected subset (1-5 distinct members) x nbestfndr; "
                   "non-trivial = >=2 blocks on a chromosome and every equal-width bin holds a marker (full oracle evaluated)",
              required_labels=("empty_equal_width_bin",)),
+    SubCheck("history", check_history, history_case(), quick=300, thorough=2500, shards_quick=4,
+             rule="one OPV / GenotypeBuilder / OHV problem object (built by from_pgmat_gpmod or by its constructor) x a history of "
+                  "2-8 operations: evaluate (latentfn / evalfn), assign new block values through the public haplomat / ohvmat "
+                  "setter (new genotypes and effects, same or new number of blocks), assign nbestfndr; non-trivial = an "
+                  "evaluation that follows a public-setter modification that itself followed an earlier evaluation",
+             required_labels=("evaluated_again_after_setter_after_evaluation", "object=opv", "object=gb", "object=ohv",
+                              "built_by=from_pgmat_gpmod", "built_by=constructor", "set_changes_number_of_blocks",
+                              "via=evalfn", "nbestfndr_assigned_after_use")),
 ]
